@@ -1134,12 +1134,13 @@ public:
 	}
 	bool set(const K &key, const V &value)
 	{
-		V *d = get(key);
-		if (!d) {
-			return _d.insert(_d.length(), entry(key, value));
+		for (entry *c = _d.begin(), *e = _d.end(); c < e; ++c) {
+			if (c->key == key) {
+				/* replace on private copy of entries */
+				return _d.set(c - _d.begin(), entry(key, value));
+			}
 		}
-		*d = value;
-		return true;
+		return _d.insert(_d.length(), entry(key, value));
 	}
 	bool append(const K &key, const V &value)
 	{
